@@ -59,6 +59,8 @@ struct Sched {
     policy: Policy,
     last: Option<UnitId>,
     starved: BTreeSet<UnitId>,
+    /// never scheduled while in this set (a stalled task: descheduled thread, blocked executor)
+    frozen: BTreeSet<UnitId>,
 }
 
 thread_local! {
@@ -80,6 +82,7 @@ impl Sched {
             policy: Policy::Uniform,
             last: None,
             starved: BTreeSet::new(),
+            frozen: BTreeSet::new(),
         }
     }
 }
@@ -190,6 +193,19 @@ pub fn starve(id: UnitId, on: bool) {
     });
 }
 
+/// While frozen, a unit is not scheduled at all (its wake-ups are kept): a task whose executor thread is descheduled.
+/// Unfreeze it before the run ends, or the run reports the unit as stuck.
+pub fn freeze(id: UnitId, on: bool) {
+    SCHED.with(|s| {
+        let mut s = s.borrow_mut();
+        if on {
+            s.frozen.insert(id);
+        } else {
+            s.frozen.remove(&id);
+        }
+    });
+}
+
 pub fn ready_count() -> usize {
     SCHED.with(|s| s.borrow().ready.lock().unwrap().len())
 }
@@ -211,19 +227,22 @@ pub fn step() -> bool {
     }
     let idx = {
         // candidates excluding starved
-        let (cands, all): (Vec<usize>, usize) = SCHED.with(|s| {
+        let (cands, all): (Vec<usize>, Vec<usize>) = SCHED.with(|s| {
             let s = s.borrow();
             let r = s.ready.lock().unwrap();
-            let c: Vec<usize> =
-                (0..r.len()).filter(|i| !s.starved.contains(&r[*i])).collect();
-            (c, r.len())
+            let unfrozen: Vec<usize> = (0..r.len()).filter(|i| !s.frozen.contains(&r[*i])).collect();
+            let c: Vec<usize> = unfrozen.iter().copied().filter(|i| !s.starved.contains(&r[*i])).collect();
+            (c, unfrozen)
         });
+        if all.is_empty() {
+            return false; // only frozen units are ready
+        }
         if cands.is_empty() {
             // only starved units are ready: usually refuse to run them
             if choose(8) != 7 {
                 return false;
             }
-            choose(all)
+            all[choose(all.len())]
         } else {
             match policy {
                 Policy::Uniform => cands[choose(cands.len())],
